@@ -24,8 +24,8 @@ def judge(name, data):
     except Exception as e:  # noqa
         return 'decoding %s raises %s: %s' % (data.hex(), type(e).__name__, e)
     fs = U.fields_of(cls)
-    has_cc = any(type(f).__name__ == 'CompletionCode' for f in fs)
-    if has_cc and len(data) > 0 and data[0] != 0 and type(fs[0]).__name__ == 'CompletionCode':
+    has_cc = any(getattr(U.kind(f), '__name__', '') == 'CompletionCode' for f in fs)
+    if has_cc and len(data) > 0 and data[0] != 0 and U.kind(fs[0]).__name__ == 'CompletionCode':
         fresh = U.canon_env(cls())
         got = U.canon_env(obj)
         if got[0] != ('int', data[0]) or got[1:] != fresh[1:]:
@@ -199,11 +199,11 @@ def run(ctx):
             env_full = U.gen_in_range(cls, rng, 'ones', nopt)
             first = U.encode_env(cls, env_full)
             seconds = [U.encode_env(cls, U.gen_in_range(cls, rng, 'random', p)) for p in range(nopt + 1)]
-            if any(type(f) is M.VariableByteArray for f in fs):
+            if any(U.kind(f) is M.VariableByteArray for f in fs):
                 for ln in (0, 1):
                     e2 = U.gen_in_range(cls, rng, 'random', nopt)
                     for i, f in enumerate(fs):
-                        if type(f) is M.VariableByteArray:
+                        if U.kind(f) is M.VariableByteArray:
                             e2[i] = ('bytes', bytes(range(ln)))
                             e2[[U.inner(g).name for g in fs].index('count')] = ('int', ln)
                     seconds.append(U.encode_env(cls, e2))
@@ -235,7 +235,7 @@ def run(ctx):
                 d = b'\x00' + d[1:]
             case(name, d, 'random')
         # all 255 non-OK completion codes followed by 0..8 arbitrary bytes
-        if is_rsp and type(fs[0]) is M.CompletionCode:
+        if is_rsp and U.kind(fs[0]) is M.CompletionCode and type(fs[0]) not in (M.Optional, M.Conditional):
             codes = list(range(1, 256))
             sample = set(rng.sample(codes, 10 if q else 255)) | {1, 0x80, 0xc0, 0xc3, 0xff}
             for cc in codes:
